@@ -581,6 +581,7 @@ def run(ctx):
     # ---- C03.d lower <= upper at untrusted constructors -----------------------------------
     check_ranges(ctx, f)
     check_interval_discipline(ctx, f)
+    check_cached_projections(ctx, f)
 
     # ---- C03.e issuance / limit results ------------------------------------------------------
     # (shared with C01: the textual rule first, then the path-by-path decision of props/C01.py)
@@ -655,6 +656,132 @@ def _op_local_ty(body, op):
     if not pl:
         return None, None
     return body.local_ty(pl["l"]), bool(pl["p"])
+
+
+# ---------------------------------------------------------------------------------------------
+# C03.i cached projections of stored blocks stay coherent
+
+_ELEM_READ = ("index", "last", "first", "get", "get_unchecked")
+_ELEM_WRITE = ("index_mut", "last_mut", "first_mut", "get_mut", "get_unchecked_mut")
+
+
+def _elem_reads(t, vec_names):
+    """(vector name, index text, accessor name) for every `acc(vec[idx])` inside term t."""
+    out = []
+    for x in walk(t):
+        if x[0] != "call" or len(x) < 4 or not x[2]:
+            continue
+        acc = (x[3] or {}).get("name")
+        inner = unmut(strip_deep(x[2][0]))
+        while inner[0] == "field" and str(inner[2]) == "0" and inner[1][0] == "variant" and inner[1][2] == "Some":
+            inner = unmut(strip_deep(inner[1][1]))
+        if inner[0] == "call" and (inner[3] or {}).get("name") in _ELEM_READ + _ELEM_WRITE and inner[2] and \
+                (inner[3] or {}).get("krate") in ("core", "alloc", "std"):
+            vr = [r for r in (y for y in walk(inner[2][0])) if r[0] in ("param", "var") and r[1] in vec_names]
+            if vr:
+                out.append((vr[0][1], render(strip_deep(inner[2][1])) if len(inner[2]) > 1 else (inner[3] or {}).get("name"), acc))
+    return out
+
+
+def check_cached_projections(ctx, f):
+    """A local that is carried round a normalisation loop and holds a projection of a block stored in the result vector
+    (`tail_next = T::next(res[tail].max())`) is a cache of that stored block.  Whenever an iteration overwrites a block
+    of the vector (or moves the index the cache is taken at), the same iteration has to assign the cache again — unless
+    what is written provably leaves the cached component as it was.  Otherwise later iterations compare against a bound
+    the vector no longer holds (blocks that should merge stay apart, or the other way round)."""
+    n_caches = 0
+    for n, b in sorted(f.bodies.items()):
+        if not n.startswith(CH) or is_derived(b) or "{closure" in n:
+            continue
+        sccs = [set(x) for x in b.cycles_sccs()]
+        if not sccs:
+            continue
+        bts = block_types(b)
+        vecs = set()
+        for i, l in enumerate(b.locals):
+            m = re.match(r"^(?:&mut |&)?std::vec::Vec<(\w+)>$", l["ty"])
+            if m and m.group(1) in bts and b.local_name(i):
+                vecs.add(b.local_name(i))
+        if not vecs:
+            continue
+        s = K.sym_of(b)
+        defs = b.defs()
+        for scc in sccs:
+            # stores into an element of the vector inside the loop
+            stores = []          # (block, vec name, index text, stored value term)
+            for bi in scc:
+                if b.is_cleanup(bi):
+                    continue
+                for st in b.blocks[bi]["stmts"]:
+                    if st["s"] != "assign" or not st["pl"]["p"] or st["pl"]["p"][0][0] != "d":
+                        continue
+                    ds = [d for d in defs.get(st["pl"]["l"], []) if d[2] == "call"]
+                    if len(ds) != 1:
+                        continue
+                    k = ds[0][3]["func"].get("k") if isinstance(ds[0][3]["func"], dict) else None
+                    if not k or k.get("name") not in _ELEM_WRITE:
+                        continue
+                    ct = strip_deep(s.call(ds[0][3], ds[0][0]))
+                    vr = [r for r in walk(ct[2][0]) if r[0] in ("param", "var") and r[1] in vecs] if ct[2] else []
+                    if vr:
+                        stores.append((bi, vr[0][1], render(strip_deep(ct[2][1])) if len(ct[2]) > 1 else k.get("name"),
+                                       strip_deep(s.rvalue(st["rv"]))))
+            for l, ds in defs.items():
+                full = [d for d in ds if d[2] in ("assign", "call")]
+                if l <= b.arg_count or len(full) < 2 or not any(d[0] in scc for d in full) or any(d[2] == "partial" for d in ds):
+                    continue
+                terms = [(bb, strip_deep(t)) for bb, t in s.defs_of_var(l)]
+                reads = [_elem_reads(t, vecs) for _, t in terms]
+                if not all(reads) or not b.local_name(l):
+                    continue
+                n_caches += 1
+                accs = {a for r in reads for _, _, a in r}
+                idx_names = set()
+                for _, t in terms:
+                    for x in walk(t):
+                        if x[0] == "var" and re.match(r"^[ui](size|8|16|32|64)$", b.local_ty(x[2]) or ""):
+                            idx_names.add(x[2])
+                def_blocks = {d[0] for d in full if d[0] in scc}
+                sources = []
+                for bi, vn, it, val in stores:
+                    # does the store provably keep the cached component(s)?
+                    keeps = False
+                    if val[0] == "call" and (val[3] or {}).get("name") == "new" and len(val[2]) == 2 and accs <= {"min", "max"}:
+                        comp = {"min": val[2][0], "max": val[2][1]}
+                        keeps = all(any(v == vn and a2 == a and i2 == it for v, i2, a2 in _elem_reads(("call", "x", (comp[a],), {"name": "id"}), vecs) or
+                                        _elem_reads(comp[a], vecs)) and render(strip_deep(comp[a])).startswith("Block::%s(" % a) for a in accs)
+                    if not keeps:
+                        sources.append((bi, "block stored into %s[%s]" % (vn, it)))
+                for il in idx_names:
+                    for d in defs.get(il, []):
+                        if d[0] in scc and d[2] in ("assign", "call"):
+                            sources.append((d[0], "index `%s` moved" % (b.local_name(il) or "_%d" % il)))
+                bad = []
+                for bi, what in sources:
+                    if bi in def_blocks:
+                        continue
+                    # an iteration through bi that never assigns the cache: bi reaches itself inside the loop avoiding
+                    # every block that assigns it
+                    allowed = scc - def_blocks
+                    seen, work = set(), [x for x in b.succs(bi) if x in allowed]
+                    hit = False
+                    while work:
+                        x = work.pop()
+                        if x == bi:
+                            hit = True
+                            break
+                        if x in seen:
+                            continue
+                        seen.add(x)
+                        work += [y for y in b.succs(x) if y in allowed]
+                    if hit:
+                        bad.append({"at": b.where(bi), "event": what})
+                shape = sorted({K.alpha(render(t), b) for _, t in terms})
+                ctx.ob("R-FLOW", "%s:cache-refreshed[%s]" % (short(root_fn(f, n)), shape[-1][:80]), not bad,
+                       "in %s a loop-carried local caching a projection of a stored block is assigned again in every iteration "
+                       "that overwrites a stored block or moves the index" % short(n), where=b.loc,
+                       detail={"cache_definitions": shape, "stale_after": bad})
+    ctx.floor("R-FLOW", "cached projections of stored blocks (chain.rs)", n_caches, 1)
 
 
 def check_stored_blocks(ctx, f):
